@@ -255,7 +255,7 @@ func oraclesOn(dir string, ops []*Op, spec PropSpec, prop string) []*Violation {
 			case o == "C13" && cp.Kind == "q":
 				v = oracleC13(e, i, &cp, res)
 			}
-			if v != nil {
+			if v = spec.relabel(v); v != nil {
 				vs = append(vs, v)
 			}
 		}
